@@ -267,6 +267,42 @@ Definition f64_text (z : Z) : Z :=
 Definition via_f64 (v : sval) : sval :=
   match v with SInt z => SInt (f64_text z) | _ => v end.
 
+(* 3.1b Elasticsearch single-document requests (ProcessPutPostSingleDocRequest): PUT/POST /{index}/_doc[/{id}],
+   /{index}/_create/{id}, /{index}/_update/{id} and the pre-7.x routes with a document type.  The body is decoded
+   into a map[string]interface{} by a decoder that KEEPS every number literal (UseNumber: a json.Number is the
+   literal's text), "_id" (the id of the URL, a generated one when the URL has none or an empty one) and "_type"
+   (when the route names a document type) are assigned in that map, and the map is marshalled again: the text
+   handed to GetNewPLE carries the literals of the body verbatim.  The route (_doc / _create / _update) and the
+   refresh argument only change the response and the flush.  [num] is the decoder's treatment of a number. *)
+Inductive doc_route := RDoc | RCreate | RUpdate.
+Record doc_req := { dq_route : doc_route; dq_id : option bytes; dq_type : bytes; dq_refresh : bool }.
+Definition k_id : bytes := s2b "_id".
+Definition k_type : bytes := s2b "_type".
+(* [gen]: the identifier uuid.New() produces for this request *)
+Definition doc_id (gen : bytes) (q : doc_req) : bytes :=
+  match dq_id q with Some (b :: i) => b :: i | _ => gen end.
+Definition doc_decode (num : sval -> sval) (doc : event) : event :=
+  map_set_all (map (fun kv => (fst kv, num (snd kv))) doc) [].
+Definition keep_literal (v : sval) : sval := v.
+Definition doc_build_with (num : sval -> sval) (gen : bytes) (q : doc_req) (t : twire) (attrs : event) : event :=
+  let m := map_set k_id (SStr (doc_id gen q)) (doc_decode num (es_build t attrs)) in
+  match dq_type q with [] => m | ty => map_set k_type (SStr ty) m end.
+Definition doc_build := doc_build_with keep_literal.
+(* NOT the code: the same handler with a decoder that turns every number into a float64 (json.Unmarshal into
+   interface{} without UseNumber), used to state that carrying the literal is what makes the two ES protocols agree *)
+Definition doc_build_f64 := doc_build_with via_f64.
+(* "_id" and "_type" are ES metadata: the record reader leaves them out of the records a search returns *)
+Definition doc_visible (f : field) : bool :=
+  visible f && negb (bytes_eqb (fst f) k_id) && negb (bytes_eqb (fst f) k_type).
+Definition stored_fields_doc (e : event) : event := filter doc_visible e.
+
+(* the JSON reader of the segment writer (parseRawJsonObject / parseJsonInt): an integer literal is stored as an
+   int64 when it fits, any other number as a float64 (an integral float64 is written here as the integer it
+   denotes): integers in [2^63, 2^64) and beyond are rounded to 53 significant bits *)
+Definition store_val (v : sval) : sval :=
+  match v with SInt z => if in_int64 z then v else SInt (f64_round z) | _ => v end.
+Definition store_cols (e : event) : event := map (fun f => (fst f, store_val (snd f))) e.
+
 Inductive hec_event := HText (s : bytes) | HObj (fs : event).
 Record hec := {
   h_time : option sval;            (* "time": seconds, number (SInt / SFlt) or string *)
